@@ -1,4 +1,5 @@
 import CbiVerif.Lemmas.FindIncErase
+import CbiVerif.Lemmas.ExpandPP
 /-! # C04 — `#include` resolution and attribution across files follow compiler rules.
 
 Spec: `Spec/IncludeSearch.lean` (the compiler's search rule), `Spec/IncludeSem.lean` (flat conditional-group
@@ -385,5 +386,32 @@ example := isystem_after_I_interleaving [.isystem "s", .I "a", .I "b"] [.I "a", 
 example : WFparsed pfsEx := WFparsed_of_check pfsEx (by decide)
 example (fuel : Nat) := include_semantics fsEx pfsEx (WFparsed_of_check pfsEx (by decide)) fuel "/r/src/a.c" wEx
   ⟨sound_nil _ _, ⟨rfl, by intro v hv; simp [wEx] at hv⟩⟩
+
+/-! ## the value of a controlling expression in the multi-file model: one expander (C03), one evaluator (C02) -/
+
+/-- The multi-file model (`finder.find` across `#include`s) gives an `#if`/`#elif` the value `PP.condValue`, i.e. the
+evaluation by `Eval.evaluatePP` (the C02 evaluator `Eval.cbiEval`) of the expansion by the total step machine `MX.cbiExpand`
+(the model of the C03 theorems) under the platform's macro table — the same definition as the single-file model of C01
+(`C01.cond_is_expand_then_eval`, and `C01.cond_object_like_partial`, `C01.ifdef_decided_by_table`, … apply to it verbatim);
+a failure of either stage is recorded as the failure of the analysis and is sticky. -/
+theorem cond_is_expand_then_eval (w : World) (toks : List Tok) (h : w.st.err = none) :
+    evalCondW w toks =
+      match CbiVerif.MX.cbiExpand w.plat.tbl toks with
+      | .ok ts => (match CbiVerif.Eval.evaluatePP ts with | .ok b => (b, w) | .error e => (false, w.setErr e))
+      | .error e => (false, w.setErr e)
+      | .fuel => (false, w.setErr (.other "ModelOutOfFuel")) := by
+  unfold evalCondW
+  rw [h, CbiVerif.PP.condValue_eq]
+  cases CbiVerif.MX.cbiExpand w.plat.tbl toks with
+  | ok ts => simp only []; cases CbiVerif.Eval.evaluatePP ts <;> rfl
+  | error e => rfl
+  | fuel => rfl
+
+/-- non-vacuity: `#if A > 1 && defined(B)` under `-DA=2 -DB`, through the function-like macro `GT` -/
+example : (evalCondW { st := {}, plat := { name := "p", tbl :=
+      [("A", ⟨"A", none, false, false, [], [⟨.num, "2", false, true⟩]⟩), ("B", ⟨"B", none, false, false, [], [⟨.num, "1", false, true⟩]⟩),
+       ("GT", ⟨"GT", some ["x", "y"], false, false, [true, true],
+          [⟨.ident, "x", false, true⟩, ⟨.op, ">", true, true⟩, ⟨.ident, "y", true, true⟩]⟩)] } }
+    (CbiVerif.PP.tokenize "GT(A, 1) && defined(B)")).1 = true := by decide +kernel
 
 end CbiVerif.C04
